@@ -36,7 +36,7 @@ RULE = (
 )
 EXHAUSTIVE_SUBSPACES = ["state compared after every single step of every history"]
 ASSUMPTIONS = ["re-entering a context object that is already active is excluded (the property says so)"]
-FLOOR = {"exc-exit-depth>=2": 1, "ctx-reused": 1, "op-on-earlier-compiled": 1, "nest-depth>=3": 1, "foreign-lookup": 1,
+FLOOR = {"compile-derived-fresh": 1, "custom-rule-inactive": 1, "exc-exit-depth>=2": 1, "ctx-reused": 1, "op-on-earlier-compiled": 1, "nest-depth>=3": 1, "foreign-lookup": 1,
          "steps_checked": 500, "compile_events": 50, "threads": 1, "asyncio": 1}
 
 _events = []  # (compiler id, symbolic circuit id) in compile order (this thread only: histories are sequential)
@@ -97,6 +97,12 @@ def base_circuits(rng):
     return out
 
 
+def pipes_all(sc):
+    from vf.tie import pipeline_circuits
+
+    return pipeline_circuits(sc)
+
+
 def check_state(res: Result, m: Model, step: str):
     res.count("steps_checked")
     act = PL._PIPELINE_CONTEXT.get()  # pylint: disable=protected-access
@@ -152,8 +158,8 @@ def run_history(res: Result, rng, nsteps: int, tag: str):
 
     new_ctx()
     for step in range(nsteps):
-        action = rng.choices(["new", "enter", "exit", "exc-exit", "compile", "recompile", "op", "lookup-foreign", "module-op"],
-                             weights=[2, 5, 4, 3, 6, 3, 8, 2, 5])[0]
+        action = rng.choices(["new", "enter", "exit", "exc-exit", "compile", "recompile", "op", "lookup-foreign", "module-op", "compile-derived-fresh", "custom-rule"],
+                             weights=[2, 5, 4, 3, 6, 3, 8, 2, 5, 3, 2])[0]
         sig.append(action)
         name = f"{tag} step {step} {action}"
         try:
@@ -255,6 +261,57 @@ def run_history(res: Result, rng, nsteps: int, tag: str):
                         res.violate("operator-result-wrong-arguments", f"{name}: {opname} returned the compilation of a result with {exp_meta[0]}={sres.operation.metadata.get(exp_meta[0])}, asked for {exp_meta[1]}")
                     record(ctx, sres, out)
                 res.features.add("op:" + opname)
+            elif action == "compile-derived-fresh":
+                # a derived circuit whose operands (one of them used at two depths) were never
+                # compiled in a fresh context: operands must be compiled first, each exactly once
+                ctx = new_ctx()
+                a, b, kinds = rng.choice(bases)
+                shape = rng.choice(["a*conj(a)", "a*(a*b)", "conj(a*b)", "cat(a, conj(a))"])
+                if shape == "a*conj(a)":
+                    sres = SF.multiply(a, SF.conjugate(a))
+                elif shape == "a*(a*b)":
+                    sres = SF.multiply(a, SF.multiply(a, b))
+                elif shape == "conj(a*b)":
+                    sres = SF.conjugate(SF.multiply(a, b))
+                else:
+                    sres = SF.concatenate([a, SF.conjugate(a)])
+                cc_ = ctx.compile(sres)
+                record(ctx, sres, cc_)
+                for c_ in pipes_all(sres):
+                    if not ctx.is_compiled(c_):
+                        res.violate("operand-not-compiled", f"{name}: an operand of {shape} is not registered after compiling the derived circuit")
+                    else:
+                        record(ctx, c_, ctx.get_compiled_circuit(c_))
+                res.features.add("compile-derived-fresh")
+            elif action == "custom-rule":
+                # a context owning its own conjugation rule must use it, active or not
+                from cirkit.symbolic.layers import LayerOperator, SumLayer
+                from cirkit.symbolic.operators import conjugate_sum_layer
+                from cirkit.symbolic.circuit import CircuitBlock
+
+                ctx = new_ctx()
+                calls = []
+
+                def my_conjugate_sum_layer(sl):
+                    calls.append(1)
+                    return conjugate_sum_layer(sl)
+
+                # real classes, not the strings `from __future__ import annotations` would leave
+                my_conjugate_sum_layer.__annotations__ = {"sl": SumLayer, "return": CircuitBlock}
+                ctx.add_operator_rule(LayerOperator.CONJUGATION, my_conjugate_sum_layer)
+                a, b, kinds = rng.choice(bases)
+                ca = ctx.compile(a)
+                record(ctx, a, ca)
+                inactive = all(ctx is not s_ for s_ in m.stack)
+                out = PL.conjugate(ca, ctx=ctx) if rng.random() < 0.5 else ctx.conjugate(ca)
+                record(ctx, ctx.get_symbolic_circuit(out), out)
+                n_sum = sum(1 for l_ in a.layers if type(l_) is SumLayer)  # rules are looked up by exact type
+                if n_sum:
+                    res.features.add("custom-rule" + ("-inactive" if inactive else ""))
+                if n_sum and len(calls) != n_sum:
+                    res.violate("context-rule-ignored", f"{name}: conjugate through a context that owns a conjugation rule did not use it (context active: {not inactive})")
+                if OPERATOR_REGISTRY.get() is not m.top_reg():
+                    res.violate("active-registry-wrong", f"{name}: registry changed by an operator call")
             elif action == "lookup-foreign":
                 res.features.add("foreign-lookup")
                 ctx = rng.choice(ctxs)
